@@ -1,6 +1,7 @@
 import SageModel.Proto
 import SageModel.Generated.Consts
 import SageModel.Generated.Columns
+import SageModel.Model.C12
 
 /-!
 # C01 — end-to-end row truthfulness: the executable specification `RowOK`
@@ -517,6 +518,24 @@ def tableViolation (run : Run) (rows : List Row) : Option String :=
     match bad2 with
     | some _ => some "hyperscore_not_nonincreasing_by_rank"
     | none => none
+
+/-- insertion of a row into a list kept in decreasing discriminant-score order -/
+def insertByScore (r : Row) : List Row → List Row
+  | [] => [r]
+  | x :: xs => if f32val x.discriminant < f32val r.discriminant then r :: x :: xs else x :: insertByScore r xs
+
+/-- the spectrum-level q-value column equals the target-decoy definition (C12) applied to the rows in
+    decreasing order of the reported discriminant score — this ties the caller's sort to C12. Undecided
+    (not flagged) when two rows with different labels share a score: their relative order is then not
+    determined by the reported columns. -/
+def spectrumQViolation (rows : List Row) : Option String :=
+  let sorted := rows.foldl (fun acc r => insertByScore r acc) []
+  let ambiguous := (sorted.zip (sorted.drop 1)).any (fun (a, b) => a.discriminant == b.discriminant && a.label != b.label)
+  if ambiguous || rows.any (fun r => !(f32finite r.discriminant)) then none else
+  let labels := sorted.map (fun r => r.label == -1)
+  let qs := (Sage.C12.spectrumQ labels).1
+  if (sorted.zip qs).any (fun (r, q) => absR (f32val r.spectrumQ - q) * (2 ^ 22 : Nat) > q) then
+    some "spectrum_q_ne_definition_in_discriminant_order" else none
 
 def zOneHot (charge : Nat) : List Nat :=
   [if charge == 2 then 1 else 0, if charge == 3 then 1 else 0, if charge == 4 then 1 else 0,
